@@ -37,7 +37,21 @@ RULE = (
     "ktensor, tovec -> from_vector) alive next to the result (up to four live objects), applies later in-place "
     "re-parameterisations to any of them and judges every live object against its own expected array after every "
     "step (objects that were not the target must be bit-identical); single-operation cells re-parameterise every "
-    "result in place and compare the operands bit for bit, and edit returned lists / vectors in place."
+    "result in place and compare the operands bit for bit, and edit returned lists / vectors in place.  Round 4: "
+    "requests the unchanged tree rejects (_c08_helpers.REJECTED: 71 (call, variant) pairs - redistribute / "
+    "normalize(mode) with a mode equal to ndims, beyond, 'all', None, a float, a list; an unknown norm type; permutations "
+    "that are too short / too long / out of range / given with a weight_factor; a reference for fixsigns that is no "
+    "Kruskal tensor or has another shape / more components; update with an invalid or unsorted mode or data that is "
+    "too short after a valid part; weight_factor of arrange out of range; ill-formed extract / permute / tolist / score / + / - / "
+    "*) are steps of C08/history and C08/history/forked and the subject of C08/rejected: after the exception the "
+    "receiver and the other operand must be bit-for-bit what they were, and the following valid steps are judged as if "
+    "the rejected request had not happened (C08/rejected: bit-identical to a twin object that never saw it); "
+    "C08/presentation makes the same valid request on twin objects in two presentations (python int vs numpy integer "
+    "scalars of every width / signedness and 0-d arrays; list vs tuple / int32 / unsigned / read-only / strided index "
+    "arrays and lists of numpy scalars; keyword vs positional optional arguments; factor matrices, weights and "
+    "parameter vectors as C-ordered, read-only, transposed, strided or reversed views, tuple vs list of factors, "
+    "copy=False) and, one time in three, with the root logger at DEBUG and every warning shown: same parameterisation "
+    "bit for bit, same array, weights all one where absorbed."
 )
 ASSUMPTIONS = [
     "denoted array = einsum('r,ar,br,...', weights, factors) on the public attributes (ref.den_kruskal)",
@@ -62,6 +76,16 @@ ASSUMPTIONS = [
     "case and the rounding bounds are unchanged; |e| <= 480 keeps sqrt(sum(x**2)) computable for |x| in [1e-3, 1e3] "
     "and <= 6 rows; beyond that (cell extreme-range) the expected norms are computed after scaling by the largest "
     "entry, and pyttb's 2-norm path is a known finding (C08-K3)",
+    "rejected requests: only requests that raise on the unchanged tree are generated (probed; e.g. "
+    "normalize(weight_factor=<out of range>), arrange(permutation=<duplicates>), redistribute(-1 / True) are accepted "
+    "and therefore absent); any exception type counts as a rejection; should a tree accept such a request, only "
+    "well-formedness and the same array are demanded of what it did; requests the unchanged tree rejects only after "
+    "normalising the receiver (arrange(weight_factor=<bad>), normalize(weight_factor=1.0), fixsigns(<mismatched "
+    "ktensor>)) must keep the array, and their bit-identity clause is the open known finding C08-K4",
+    "presentations: only forms the unchanged tree accepts (probed): numpy integer scalars for normalize(weight_factor, "
+    "mode), arrange(weight_factor), redistribute(mode), update(modes), scalar * K; not for tolist(mode), extract(int), "
+    "K * scalar (documented python int / scalar, asserted); contains_weights is asserted to be a bool; float32 "
+    "factors are rejected by the constructor (dtype=float documented)",
 ]
 
 EPS = ref.EPS
@@ -921,7 +945,12 @@ def _history_case(draw, tier):
     steps = []
     for _ in range(draw(st.sampled_from([1, 2, 2, 3, 3, 4, 5, 6]))):
         kind = draw(st.sampled_from(["normalize", "normalize", "arrange", "arrange-perm", "fixsigns", "redistribute",
-                                     "neg", "scale", "permute-modes", "extract-all", "tolist-mode", "roundtrip-vec"]))
+                                     "neg", "scale", "permute-modes", "extract-all", "tolist-mode", "roundtrip-vec",
+                                     "rejected", "rejected"]))
+        if kind == "rejected":
+            # (round 4) a request the unchanged tree rejects; the model goes on as if it had not happened
+            steps.append(dict(op=kind, req=draw(H.rejected_request(N))))
+            continue
         if kind == "normalize":
             wf = draw(st.sampled_from(["none", "all"] + [str(k) for k in range(N)]))
             steps.append(dict(op=kind, wf=wf, sort=draw(st.booleans()), normtype=draw(st.sampled_from(["1", "2", "inf"])),
@@ -961,6 +990,8 @@ def history(ctx, case):
         op = s["op"]
         ctx.label("step-" + op)
         n_terms = R * (N + 4) * (k + 2)
+        if op == "rejected":
+            H.rejected_apply(ctx, K, s["req"], shape, R, tag="history:rejected")
         with ctx.sut(f"history.{op}"):
             if op == "normalize":
                 wf = None if s["wf"] == "none" else ("all" if s["wf"] == "all" else int(s["wf"]))
@@ -1056,7 +1087,7 @@ def history(ctx, case):
 # it.  After every step every live object is judged against its *own* expected array, and every object that was not
 # the target of an in-place step must have bit-identical attributes.
 
-_INPLACE = ["normalize", "normalize", "arrange", "arrange-perm", "fixsigns", "redistribute"]
+_INPLACE = ["normalize", "normalize", "arrange", "arrange-perm", "fixsigns", "redistribute", "rejected"]
 _NEWOBJ = ["neg", "pos", "scale", "scale", "permute-modes", "extract-all", "copy", "tolist-mode", "roundtrip-vec", "add", "sub"]
 _MAX_LIVE = 4
 
@@ -1078,6 +1109,8 @@ def _forked_case(draw, tier):
             wf = draw(st.sampled_from(["none", "all"] + [str(k) for k in range(N)]))
             s.update(wf=wf, sort=draw(st.booleans()), normtype=draw(st.sampled_from(["1", "2", "inf"])),
                      mode=draw(st.sampled_from([None] + list(range(N)))) if wf == "none" else None)
+        elif kind == "rejected":
+            s.update(req=draw(H.rejected_request(N)))
         elif kind == "arrange":
             s.update(wf=draw(st.sampled_from([None] + list(range(N)))))
         elif kind in ("arrange-perm", "extract-all"):
@@ -1139,6 +1172,9 @@ def history_forked(ctx, case):
         snaps = [_attrs(x["K"]) for x in objs]
         ctx.label("step-" + op)
         new = None
+        if op == "rejected":
+            # (round 4) the target of a rejected request stays what it was, like every other live object
+            H.rejected_apply(ctx, K, s["req"], o["shape"], o["R"], tag="forked:rejected")
         with ctx.sut(f"forked.{op}"):
             if op == "normalize":
                 wf = None if s["wf"] == "none" else ("all" if s["wf"] == "all" else int(s["wf"]))
@@ -1331,3 +1367,349 @@ def extreme_range(ctx, case):
 
 
 PREDICATES["extreme_uses_2norm"] = _extreme_uses_2norm
+
+
+# --------------------------------------------------------------------------
+# (round 4, class 12) the state a rejected request leaves behind
+# --------------------------------------------------------------------------
+# One request the unchanged tree rejects (every (call, variant) pair of _c08_helpers.REJECTED drawn uniformly), on an
+# operand of any provenance, followed by a valid in-place step.  A twin object built the same way only gets the valid
+# step: the two must end up bit-identical ("as if the rejected request had not happened").  The same requests are
+# steps of C08/history and C08/history/forked.
+
+_FOLLOW = ["redistribute", "normalize", "normalize-wf", "normalize-all", "arrange", "arrange-wf", "arrange-perm", "fixsigns",
+           "normalize-mode", "none"]
+
+
+@st.composite
+def _rejected_case(draw, tier):
+    c = draw(H.kt(tier))
+    N = len(c["shape"])
+    # every (call, variant) pair must come up often: walk through the table from a drawn start with a drawn stride
+    # (the number of pairs is prime) instead of sampling it
+    P = H.REJECTED_PAIRS
+    start, stride = draw(st.integers(0, len(P) - 1)), draw(st.sampled_from([1, 7, 11, 13, 17, 23, 29, 31, 37, 41, 43, 47, 53]))
+    c["reqs"] = []
+    for i in range(draw(st.sampled_from([1, 2, 3, 4, 6]))):
+        call, v = P[(start + i * stride) % len(P)]
+        c["reqs"].append(dict(call=call, v=v, k=draw(st.integers(0, N - 1)), j=draw(st.integers(0, 7))))
+    c["follow"] = draw(st.sampled_from(_FOLLOW))
+    c["m"] = draw(st.integers(0, N - 1))
+    c["normtype"] = draw(st.sampled_from(["1", "2", "inf"]))
+    return c
+
+
+def _late_request(case):
+    return any(H.REJECTED[r["call"]][0] == "late" for r in case.get("reqs", []) if isinstance(r, dict)) or any(
+        H.REJECTED[s["req"]["call"]][0] == "late" for s in case.get("steps", []) if s.get("op") == "rejected")
+
+
+def _follow_step(K, case):
+    f, m, ord_ = case["follow"], case["m"], H.NORMS[case["normtype"]]
+    if f == "redistribute":
+        K.redistribute(m)
+    elif f == "normalize":
+        K.normalize(sort=bool(m & 1), normtype=ord_)
+    elif f == "normalize-wf":
+        K.normalize(weight_factor=m, normtype=ord_)
+    elif f == "normalize-all":
+        K.normalize(weight_factor="all", normtype=ord_)
+    elif f == "normalize-mode":
+        K.normalize(mode=m, normtype=ord_)
+    elif f == "arrange":
+        K.arrange()
+    elif f == "arrange-wf":
+        K.arrange(weight_factor=m)
+    elif f == "arrange-perm":
+        K.arrange(permutation=list(range(K.ncomponents))[::-1])
+    elif f == "fixsigns":
+        K.fixsigns()
+
+
+class _Quiet:
+    """stand-in for ctx while the twin operand is prepared (its labels would count twice)"""
+
+    def label(self, *a):
+        pass
+
+
+@cell("C08/rejected", strategy=_rejected_case, quick=500, thorough=5000, shards=(1, 8))
+def rejected(ctx, case0):
+    K, case = H.operand(ctx, case0)
+    T, _ = H.operand(_Quiet(), case0)  # the twin: same provenance, never sees the rejected requests
+    shape, R, N = list(case["shape"]), case["rank"], len(case["shape"])
+    ctx.require(H.attrs_equal(T, H.attrs(K)), "rejected:twin-operands-equal")  # (deterministic preparation)
+    ctx.nt = H.kt_nt(case)
+    ctx.label(*H.kt_labels(case), "follow-" + case["follow"], f"requests-{len(case['reqs'])}")
+    all_same = True
+    for req in case["reqs"]:
+        all_same = H.rejected_apply(ctx, K, req, shape, R, tag="rejected") and all_same
+        _structure(ctx, K, case, clause="rejected:" + req["call"] + ":wellformed")
+        if not _den_ok(ctx, K, case, "rejected:" + req["call"] + ":denotes-the-same-array",
+                       extra_terms=R * (N + 4) * len(case["reqs"])):
+            raise Abort()  # (recorded; later requests would only repeat the damage under their own names)
+    with ctx.sut("rejected.follow-" + case["follow"]):
+        _follow_step(K, case)
+        _follow_step(T, case)
+    _structure(ctx, K, case, clause="rejected:then-valid-step:wellformed")
+    _den_ok(ctx, K, case, "rejected:then-valid-step:denotes-the-same-array", extra_terms=R * (N + 4) * (len(case["reqs"]) + 1))
+    if all_same:
+        # judged as if the rejected requests had not happened: exactly what the twin got
+        ctx.check(H.attrs_equal(K, H.attrs(T)), "rejected:then-valid-step:same-as-without-the-rejected-request")
+    f = case["follow"]
+    if f in ("redistribute", "normalize-wf", "normalize-all", "arrange-wf"):
+        ctx.check(bool((np.asarray(K.weights) == 1).all()), "rejected:then-valid-step:absorbed-weights-all-one", K.weights)
+
+
+PREDICATES["late_rejected_request"] = _late_request
+
+
+# --------------------------------------------------------------------------
+# (round 4, classes 11 and 13) one request, two presentations; quiet and verbose process environment
+# --------------------------------------------------------------------------
+# The same valid request is made twice on twin objects: once with python ints / lists / keyword arguments / freshly
+# built F-ordered float64 arrays, once the way ordinary callers present it - numpy integer scalars of every width
+# and signedness (for n in np.arange(K.ndims), np.argmax(...)), 0-d arrays, index collections as tuples / int32 /
+# unsigned / read-only / strided arrays / lists of numpy scalars, optional arguments passed positionally, factor
+# matrices and weights handed to the constructor / update / from_vector as C-ordered, read-only, transposed, strided
+# or reversed views, a tuple instead of a list - optionally with the root logger at DEBUG and warnings always shown.
+# Both objects must end up with the same parameterisation bit for bit, and the second still satisfies the clauses of
+# the property (same array; weights all one where absorbed).  float32 factors are outside the domain: the
+# constructor rejects every dtype but float64 (ASSUMPTIONS).
+
+_PRES_CALLS = ["normalize-wf", "normalize-wf", "normalize-mode", "normalize-positional", "normalize-positional-all",
+               "arrange-wf", "arrange-positional", "redistribute", "update-scalar-mode", "update-modes", "arrange-perm",
+               "arrange-perm-positional", "extract", "permute", "from-vector", "ctor", "ctor", "ctor-nocopy", "scalar-times",
+               "tovec-flag", "normalize-normtype"]
+_NORMTYPE_FORMS = {"float": float, "float64": np.float64, "float32": np.float32, "int64": lambda x: np.int64(x) if np.isfinite(x) else np.float64(x),
+                   "uint8": lambda x: np.uint8(x) if np.isfinite(x) else float(x), "0d-array": lambda x: np.array(float(x))}
+
+
+@st.composite
+def _presentation_case(draw, tier):
+    c = draw(H.kt(tier))
+    N, R = len(c["shape"]), c["rank"]
+    # several calls per case, walking through the list from a drawn start with a drawn stride (sampling favours the
+    # head of the list and leaves the tail rare)
+    U = sorted(set(_PRES_CALLS))
+    start, stride = draw(st.integers(0, len(U) - 1)), draw(st.sampled_from([1, 2, 3, 4, 5, 7, 8, 10, 11, 13, 16, 17]))
+    c["calls"] = [U[(start + i * stride) % len(U)] for i in range(draw(st.sampled_from([2, 3, 4])))]
+    c["m"] = draw(st.integers(0, N - 1))
+    c["scalar"] = draw(st.sampled_from(sorted(H.INT_SCALARS)))
+    c["coll"] = draw(st.sampled_from(sorted(H.INDEX_COLLECTIONS)))
+    c["matrix"] = [draw(st.sampled_from(H.MATRIX_FORMS)) for _ in range(N + 1)]
+    c["perm"] = list(draw(st.permutations(range(R))))
+    c["idx"] = draw(gen.mode_subset(R, 1, R))
+    c["order"] = list(draw(st.permutations(range(N))))
+    sel = sorted(draw(gen.mode_subset(N + 1, 1, N + 1, ordered=False)))
+    c["modes"] = [i - 1 for i in sel]  # -1 = weights
+    c["sort"] = draw(st.booleans())
+    c["normtype"] = draw(st.sampled_from(["1", "2", "inf"]))
+    c["env"] = draw(st.sampled_from(["plain", "plain", "verbose"]))
+    c["normtype_form"] = draw(st.sampled_from(sorted(_NORMTYPE_FORMS)))
+    c["follow"] = draw(st.sampled_from(["normalize-wf", "redistribute", "arrange", "none"]))
+    return c
+
+
+class _Verbose:
+    """(class 13) root logger at DEBUG behind a NullHandler, logging not disabled, every warning shown; restored on exit"""
+
+    def __init__(self, on):
+        self.on = on
+
+    def __enter__(self):
+        if not self.on:
+            return self
+        import logging
+        import warnings
+        root = logging.getLogger()
+        self.level, self.disabled, self.handlers = root.level, root.manager.disable, root.handlers[:]
+        root.handlers[:] = [logging.NullHandler()]  # (nothing reaches stderr; a handler exists, so basicConfig stays out)
+        root.setLevel(logging.DEBUG)
+        logging.disable(logging.NOTSET)
+        self.cw = warnings.catch_warnings(record=True)  # (recorded, not printed to stderr)
+        self.cw.__enter__()
+        warnings.simplefilter("always")
+        return self
+
+    def __exit__(self, *exc):
+        if not self.on:
+            return False
+        import logging
+        self.cw.__exit__(*exc)
+        root = logging.getLogger()
+        root.setLevel(self.level)
+        root.handlers[:] = self.handlers
+        logging.disable(self.disabled)
+        return False
+
+
+@cell("C08/presentation", strategy=_presentation_case, quick=250, thorough=2500, shards=(2, 12))
+def presentation(ctx, case0):
+    assert len(set(_PRES_CALLS)) == 19  # (prime: every stride below it walks through all the calls)
+    first = True
+    for call in case0["calls"]:
+        _present_one(ctx, case0, call, first)
+        first = False
+
+
+def _present_one(ctx, case0, call, first):
+    K1, case = H.operand(ctx if first else _Quiet(), case0)
+    K2, _ = H.operand(_Quiet(), case0)
+    F0, w0 = H.fms_of(case), H.w_of(case)
+    shape, R, N = list(case["shape"]), case["rank"], len(case["shape"])
+    m = case["m"]
+    ord_ = H.NORMS[case["normtype"]]
+    npi = H.INT_SCALARS[case["scalar"]]
+    coll = H.INDEX_COLLECTIONS[case["coll"]]
+    mf = case["matrix"]
+    verbose = case["env"] == "verbose"
+    ctx.require(H.attrs_equal(K2, H.attrs(K1)), "presentation:twin-operands-equal")
+    ctx.nt = H.kt_nt(case)
+    if first:
+        ctx.label(*H.kt_labels(case), "env-" + case["env"])
+    ctx.label("call-" + call)
+    absorbed = False
+    A, B = H.den_case(case), H.bound_case(case)
+    r1 = r2 = None
+    with ctx.sut("presentation." + call + ".plain"):
+        # the reference presentation: python ints, lists, keywords, fresh F-ordered float64 arrays
+        if call == "normalize-wf":
+            K1.normalize(weight_factor=m, sort=case["sort"], normtype=ord_)
+        elif call == "normalize-mode":
+            K1.normalize(mode=m, normtype=ord_)
+        elif call == "normalize-normtype":
+            K1.normalize(weight_factor=[None, m, "all"][case["perm"][0] % 3], sort=case["sort"], normtype=ord_)
+        elif call == "normalize-positional":
+            K1.normalize(weight_factor=m, sort=case["sort"], normtype=ord_, mode=None)
+        elif call == "normalize-positional-all":
+            K1.normalize(weight_factor="all", sort=case["sort"], normtype=ord_, mode=None)
+        elif call in ("arrange-wf", "arrange-positional"):
+            K1.arrange(weight_factor=m)
+        elif call == "redistribute":
+            K1.redistribute(m)
+        elif call == "update-scalar-mode":
+            K1.update([m], (F0[m] * 2.0 + 1.0).flatten(order="F"))
+        elif call == "update-modes":
+            K1.update(list(case["modes"]), _update_data(case, F0, w0))
+        elif call in ("arrange-perm", "arrange-perm-positional"):
+            K1.arrange(permutation=list(case["perm"]))
+        elif call == "extract":
+            r1 = K1.extract(list(case["idx"]))
+        elif call == "permute":
+            r1 = K1.permute(np.array(case["order"]))
+        elif call == "from-vector":
+            r1 = ttb.ktensor.from_vector(K1.tovec(include_weights=True), tuple(shape), True)
+        elif call in ("ctor", "ctor-nocopy"):
+            r1 = ttb.ktensor([np.asfortranarray(f) for f in F0], w0.copy())
+        elif call == "scalar-times":
+            r1 = (m + 2) * K1
+        elif call == "tovec-flag":
+            r1 = ttb.ktensor.from_vector(K1.tovec(include_weights=case["sort"]), tuple(shape), case["sort"])
+    with _Verbose(verbose), ctx.sut("presentation." + call + ".presented"):
+        if call == "normalize-wf":
+            ctx.label("scalar-" + case["scalar"])
+            K2.normalize(weight_factor=npi(m), sort=case["sort"], normtype=ord_)
+            absorbed = True
+        elif call == "normalize-mode":
+            ctx.label("scalar-" + case["scalar"])
+            K2.normalize(mode=npi(m), normtype=ord_)
+        elif call == "normalize-normtype":
+            # the norm type is documented as a float: 2, 2.0, numpy.float64(2.0), numpy.int64(2) are one request
+            ctx.label("normtype-as-" + case["normtype_form"])
+            K2.normalize(weight_factor=[None, m, "all"][case["perm"][0] % 3], sort=case["sort"],
+                         normtype=_NORMTYPE_FORMS[case["normtype_form"]](ord_))
+        elif call == "normalize-positional":
+            ctx.label("scalar-" + case["scalar"], "positional")
+            K2.normalize(npi(m), np.bool_(case["sort"]) if m & 1 else case["sort"], ord_)
+            absorbed = True
+        elif call == "normalize-positional-all":
+            ctx.label("positional")
+            K2.normalize("all", case["sort"], ord_, None)
+            absorbed = True
+        elif call == "arrange-wf":
+            ctx.label("scalar-" + case["scalar"])
+            K2.arrange(weight_factor=npi(m))
+            absorbed = True
+        elif call == "arrange-positional":
+            ctx.label("scalar-" + case["scalar"], "positional")
+            K2.arrange(npi(m))
+            absorbed = True
+        elif call == "redistribute":
+            ctx.label("scalar-" + case["scalar"])
+            K2.redistribute(mode=npi(m)) if case["sort"] else K2.redistribute(npi(m))
+            absorbed = True
+        elif call == "update-scalar-mode":
+            ctx.label("scalar-" + case["scalar"], "data-" + mf[0])
+            K2.update(npi(m), H.present_vector((F0[m] * 2.0 + 1.0).flatten(order="F"), mf[0]))
+        elif call == "update-modes":
+            form = case["coll"] if not (case["coll"] in H.UNSIGNED and -1 in case["modes"]) else "int32"
+            ctx.label("coll-" + form, "data-" + mf[0])
+            K2.update(H.INDEX_COLLECTIONS[form](case["modes"]), H.present_vector(_update_data(case, F0, w0), mf[0]))
+        elif call == "arrange-perm":
+            ctx.label("coll-" + case["coll"])
+            K2.arrange(permutation=coll(case["perm"]))
+        elif call == "arrange-perm-positional":
+            ctx.label("coll-" + case["coll"], "positional")
+            K2.arrange(None, coll(case["perm"]))
+        elif call == "extract":
+            ctx.label("coll-" + case["coll"])
+            r2 = K2.extract(coll(case["idx"]))
+        elif call == "permute":
+            ctx.label("coll-" + case["coll"])
+            r2 = K2.permute(coll(case["order"]))
+        elif call == "from-vector":
+            ctx.label("coll-" + case["coll"], "data-" + mf[0])
+            r2 = ttb.ktensor.from_vector(H.present_vector(K2.tovec(), mf[0]), coll(shape), True)  # (contains_weights is documented and asserted as bool)
+        elif call == "ctor":
+            ctx.label(*["matrix-" + x for x in set(mf)], "factors-as-tuple" if case["sort"] else "factors-as-list")
+            fm = [H.present_matrix(f, x) for f, x in zip(F0, mf)]
+            wv = H.present_vector(w0, mf[N])
+            r2 = ttb.ktensor(tuple(fm) if case["sort"] else fm, wv)
+            # (copy=True is the default: the arrays handed over stay the caller's)
+            for x in fm + [wv]:
+                if x.flags.writeable:
+                    x *= 0.0
+        elif call == "ctor-nocopy":
+            ctx.label(*["matrix-" + x for x in set(mf)], "copy-False")
+            fm = [H.present_matrix(f, x) for f, x in zip(F0, mf)]
+            fm = [f if f.flags.writeable else f.copy(order="K") for f in fm]  # (a caller who asks for no copy owns writable data)
+            r2 = ttb.ktensor(tuple(fm) if case["sort"] else fm, w0.copy(), copy=False)
+        elif call == "scalar-times":
+            ctx.label("scalar-" + case["scalar"])
+            r2 = npi(m + 2) * K2
+        elif call == "tovec-flag":
+            r2 = ttb.ktensor.from_vector(K2.tovec(np.bool_(case["sort"]) if m & 1 else int(case["sort"])), list(shape), case["sort"])
+    X1, X2 = (K1, K2) if r1 is None else (r1, r2)
+    ctx.require(isinstance(X2, ttb.ktensor) and isinstance(X1, ttb.ktensor), f"presentation:{call}:returns-ktensor", type(X2).__name__)
+    probs = H.kt_ok(X2, X1.shape, X1.ncomponents)
+    ctx.require(not probs, f"presentation:{call}:wellformed", probs)
+    ctx.check(H.attrs_equal(X2, H.attrs(X1)), f"presentation:{call}:same-parameterisation-in-both-presentations",
+              (X1.weights, X2.weights))
+    # the presented call on its own terms
+    if call in ("update-scalar-mode", "update-modes", "extract", "permute", "scalar-times"):
+        pass  # the array changes by design (judged in C08/update, C08/extract, C07, C08/algebra); equality above is the clause
+    elif call != "tovec-flag" or case["sort"]:  # (a vector without weights gives unit weights back, by design)
+        got = ref.den(X2)
+        ctx.check(ref.same_bound(got, A, B, R * (N + 4)), f"presentation:{call}:denotes-the-same-array", ref.diff_info(got, A))
+    if absorbed:
+        ctx.check(bool((np.asarray(X2.weights) == 1).all()), f"presentation:{call}:absorbed-weights-all-one", X2.weights)
+    if call in ("ctor", "from-vector", "tovec-flag"):
+        # and both go on to behave the same (the stored arrays are the object's own, F-ordered and writable)
+        with _Verbose(verbose), ctx.sut("presentation." + call + ".then-" + case["follow"]):
+            for X in (X1, X2):
+                if case["follow"] == "normalize-wf":
+                    X.normalize(weight_factor=m, normtype=ord_)
+                elif case["follow"] == "redistribute":
+                    X.redistribute(m)
+                elif case["follow"] == "arrange":
+                    X.arrange()
+        ctx.check(H.attrs_equal(X2, H.attrs(X1)), f"presentation:{call}:same-parameterisation-after-a-further-step")
+        if call != "tovec-flag" or case["sort"]:
+            got = ref.den(X2)
+            ctx.check(ref.same_bound(got, A, B, 2 * R * (N + 4)), f"presentation:{call}:denotes-the-same-array-after-a-further-step",
+                      ref.diff_info(got, A))
+
+
+def _update_data(case, F0, w0):
+    return np.concatenate([(w0 - 1.5) if k == -1 else (F0[k] * 0.5 - 2.0).flatten(order="F") for k in case["modes"]])
